@@ -168,10 +168,29 @@ def substituted(builtin, now):
         saved.append((mod, name, getattr(mod, name)))
         setattr(mod, name, val)
 
+    class ClockedStore(X509Store):
+        """A store whose verification time is the simulated clock - unless the code under test sets a time of its own afterwards, which then
+        wins exactly as it would on a fresh store (OpenSSL would otherwise keep the FIRST time that was set on a store)."""
+
+        def __init__(self):
+            super().__init__()
+            self._added = []
+            X509Store.set_time(self, datetime.datetime.fromtimestamp(now, datetime.timezone.utc).replace(tzinfo=None))
+
+        def add_cert(self, cert):
+            self._added.append(cert)
+            super().add_cert(cert)
+
+        def set_time(self, vfy_time):
+            fresh = X509Store()
+            for c in self._added:
+                fresh.add_cert(c)
+            fresh.set_time(vfy_time)
+            self._fresh = fresh              # keeps the underlying object alive
+            self._store = fresh._store
+
     def store():
-        st = X509Store()
-        st.set_time(datetime.datetime.fromtimestamp(now, datetime.timezone.utc).replace(tzinfo=None))
-        return st
+        return ClockedStore()
     try:
         if builtin is not None:
             a = builtin.get("apple") or []
